@@ -79,6 +79,10 @@ pub fn datas() -> Vec<Value> {
         json!({"a": "", "xs": [], "n": "1"}),
         json!({"a": "déjà", "b": {"c": "ñu"}, "xs": ["ü", "é"], "n": -0.5}),
         json!("añb"),
+        // beyond any small-size fast path: 70 elements, 70 characters
+        json!({"a": "0123456789abcdefghijklmnopqrstuvwxyzABCDEFGHIJKLMNOPQRSTUVWXYZ-é水😀+*/=", "b": {"c": "x"}, "n": 70,
+               "xs": [1, 2, 3, 4, 5, 6, 7, 8, 9, 10, 11, 12, 13, 14, 15, 16, 17, 18, 19, 20, 21, 22, 23, 24, 25, 26, 27, 28, 29, 30, 31, 32, 33, 34, 35,
+                      "1", "2", null, [3], {"k": 4}, 41, 42, 43, 44, 45, 46, 47, 48, 49, 50, 51, 52, 53, 54, 55, 56, 57, 58, 59, 60, 61, 62, 63, 64, 65, 66, 67, 68, 69, 70]}),
     ]
 }
 
